@@ -14,6 +14,11 @@ type genState struct {
 	label int
 	maxD  int
 	maxW  int
+	// error VALUES: leaves may share their error text (classes) and even their label (the same leaf
+	// listed twice); the identity the oracle counts with is the error value, never its message
+	shareText int // > 0: every leaf's error text is that of one of this many classes
+	dupLabels int // > 0: labels are drawn from this many values instead of being fresh
+	failNum   int // leaves fail with probability failNum/4 per side (0 = the default 1/4)
 }
 
 var groupScopes = []string{"n", "n", "n", "n", "n", "n", "n", "n", "n", "N", "e", "q", "q", "s", "s", "qs", "qs", "qs", "sq", "qq", "qsq", "ss"}
@@ -23,6 +28,12 @@ func (g *genState) leaf() *node {
 	r := g.r
 	n := &node{kind: 'L', label: g.label}
 	g.label++
+	if g.dupLabels > 0 {
+		n.label = r.Intn(g.dupLabels)
+	}
+	if g.shareText > 0 {
+		n.eclass = 1 + r.Intn(g.shareText)
+	}
 	switch r.Intn(16) {
 	case 0:
 		n.caps = 'z'
@@ -33,8 +44,12 @@ func (g *genState) leaf() *node {
 	default:
 		n.caps = 'b'
 	}
-	n.failReq = r.Chance(1, 4)
-	n.failRes = r.Chance(1, 4)
+	fn := g.failNum
+	if fn == 0 {
+		fn = 1
+	}
+	n.failReq = r.Chance(fn, 4)
+	n.failRes = r.Chance(fn, 4)
 	// a scope the leaf supports
 	var choices []string
 	switch n.caps {
@@ -352,6 +367,12 @@ func genCase(r *core.Rand, maxD, maxW int) []string {
 	posts := r.Range(2, 4)
 	for i := 0; i < posts; i++ {
 		g := &genState{r: r, maxD: r.Range(2, maxD), maxW: maxW}
+		switch r.Intn(8) {
+		case 0:
+			g.shareText = r.Range(1, 2)
+		case 1:
+			g.dupLabels = r.Range(2, 4)
+		}
 		t := g.tree(1)
 		core.Count("tree:depth-" + strconv.Itoa(t.depth()))
 		if r.Chance(1, 3) {
@@ -493,6 +514,76 @@ func wideCase(r *core.Rand, maxW int) []string {
 	return ops
 }
 
+// aggTree: aggregation at depth >= 2: aggregating fifo groups inside aggregating fifo groups, directly
+// and through filters / priority groups / non-aggregating groups, with leaves that mostly fail.
+func (g *genState) aggTree(depth int) *node {
+	r := g.r
+	if depth >= g.maxD {
+		return g.leaf()
+	}
+	sub := func() *node {
+		if r.Chance(1, 3) {
+			return g.leaf()
+		}
+		return g.aggTree(depth + 1)
+	}
+	switch k := r.Intn(10); {
+	case k < 6:
+		n := &node{kind: 'F', scope: r.Pick("n", "n", "n", "qs", "N"), agg: !r.Chance(1, 6)}
+		for i, w := 0, r.Range(2, 4); i < w; i++ {
+			n.kids = append(n.kids, sub())
+		}
+		return n
+	case k < 8: // through a filter (half of the time one that holds for every message)
+		c := genCond(r)
+		if r.Bool() {
+			c = &condSpec{kind: 'u'}
+		}
+		n := &node{kind: 'C', cond: c, scope: "n", kids: []*node{sub()}}
+		if c.kind != 'p' && r.Bool() {
+			n.els = sub()
+		}
+		return n
+	default:
+		n := &node{kind: 'P', scope: "n"}
+		for i, w := 0, r.Range(1, 3); i < w; i++ {
+			n.kids = append(n.kids, sub())
+			n.prios = append(n.prios, int64(r.Intn(2)))
+		}
+		return n
+	}
+}
+
+// aggCase: nested aggregation over leaves whose errors are equal as text (shared classes) or even as
+// leaves (shared labels): "every error is reported once" means once EACH.
+func aggCase(r *core.Rand) []string {
+	var ops []string
+	for i, posts := 0, r.Range(1, 2); i < posts; i++ {
+		g := &genState{r: r, maxD: r.Range(3, 5), maxW: 3, failNum: r.Range(2, 4)}
+		switch r.Intn(4) {
+		case 0:
+			g.shareText = 1
+		case 1:
+			g.shareText = 2
+		case 2:
+			g.dupLabels = r.Range(1, 3)
+		default:
+			g.shareText, g.dupLabels = 1, 2
+		}
+		t := &node{kind: 'F', scope: "n", agg: true, kids: []*node{g.leaf(), g.aggTree(2), g.leaf()}}
+		core.Count("agg:depth-" + strconv.Itoa(t.depth()))
+		op := "post " + t.String()
+		if r.Chance(1, 4) { // the same tree as a JSON value
+			op = "postj " + r.Pick("0", "1", "3") + " " + t.toJV().String()
+		}
+		ops = append(ops, op)
+		for _, k := range []string{"q", "s", r.Pick("q", "s")} {
+			ops = append(ops, "run "+k+" "+genMessage(r, t.conds()...).token())
+		}
+	}
+	return ops
+}
+
 // scopeMatrix: every combination of scopes on a two-level tree (group over two leaves).
 func scopeMatrix(emit func([]string)) {
 	scopes := []string{"n", "e", "q", "s", "qs", "x"}
@@ -539,6 +630,9 @@ func (P) Gen(r *core.Rand, tier string, emit func([]string)) {
 		emit(genCase(r, 5, 4))
 		if i%3 == 0 {
 			emit(matcherCase(r.Fork()))
+		}
+		if i%6 == 1 {
+			emit(aggCase(r.Fork()))
 		}
 		if i%2 == 0 {
 			if c := jsonCase(r.Fork()); len(c) > 0 {
